@@ -7,8 +7,8 @@ package main
 // (runtime.MemStats.TotalAlloc) and a goroutine-leak check, so the real reader's outcome is one of
 //   values | error | recovered panic | process crash | timeout | excessive allocation | leaked goroutine
 // Sub-checks:
-//   witness   (S)  the known defects, deterministically (ZNG negative ints, type value union,
-//                  VNG header/segment, Validate on set elements)
+//   witness   (S)  the known and the repaired defects, deterministically (ZNG negative ints, type
+//                  value union, VNG header/segment/metadata, Validate gaps, parser panics)
 //   zng       (T2) valid ZNG streams mutated (truncation at every offset, bit flips in headers /
 //                  typedefs / tags / bodies, boundary integers spliced into every varint position,
 //                  byte insert/delete), real outcome class + delivered values vs the Lean model
@@ -1330,13 +1330,13 @@ func runWitness(c *Ctx) {
 		c.Eval("witness/" + x.name + fmt.Sprint(x.j.Threads))
 		c.Res.ModelCases++
 		rp := replay{Sub: "zng", Job: x.j, Note: x.name}
-		if mods[i].Outcome != "panic:"+x.site {
-			c.Fail("correspondence", "C11:witness:model", fmt.Sprintf("%s: model outcome %s, expected panic:%s", x.name, mods[i].Outcome, x.site), rp)
+		// these inputs panicked (and killed the process with Threads>1) until repo commit 0b09f99cc
+		// added the sign checks; model and code must now both return an ordinary error
+		if mods[i].Outcome != "err" {
+			c.Fail("correspondence", "C11:witness:model", fmt.Sprintf("%s: model outcome %s, expected err", x.name, mods[i].Outcome), rp)
 		}
-		if judge(c, "zng", x.j, &outs[i], x.site, 4<<20, "") {
-			c.Stat("witness:not-reproduced:" + x.site)
-			c.Note("witness %q (%d threads) no longer panics: the defect looks repaired; the model still has the panic site", x.name, x.j.Threads)
-			c.Fail("correspondence", "C11:witness:repaired:"+x.site, fmt.Sprintf("%s: the model predicts a panic at %s but the real reader survives (was the defect repaired? then update the model)", x.name, x.site), rp)
+		if judge(c, "zng", x.j, &outs[i], "", 4<<20, ":former-"+x.site) && outs[i].Class != "error" {
+			c.Fail("correspondence", "C11:witness:class", fmt.Sprintf("%s: the real reader returned %s, expected an error", x.name, outs[i].Class), rp)
 		}
 	}
 	// 4. type value: a union that announces more members than it has
